@@ -150,7 +150,9 @@ Section Adapter.
                    snd (DC.scan (DC.d_hand d)) = true
     else agrees G (PS.f_ty f).
 
-  Definition keep (omit : list bytes) (f : PS.field) : bool := negb (PS.omitted omit (PS.f_name f)).
+  (* the fields the copy loop visits: not omitted (Skip callback) and not the blank field (StructFieldsCopy.Frag skips `_`,
+     repair adc955a; C17's model of the loop is handed the struct without it) *)
+  Definition keep (omit : list bytes) (f : PS.field) : bool := negb (PS.omitted (PS.copy_skip omit) (PS.f_name f)).
 End Adapter.
 
 (* ---- DeepCopyAs / DeepCopyIntoAs at the level of C17's heap ---- *)
